@@ -145,6 +145,7 @@ func c11Check(cs c11Case) (clause, detail string) {
 
 func c11Run(c *fw.Ctx) {
 	c11Sched(c)
+	c11Ladder(c)
 	cat := catalogue()
 	var valid []reqItem
 	perCmd := map[string]int{}
@@ -284,7 +285,7 @@ func c11Replay(raw json.RawMessage) (string, bool, error) {
 		Kind string `json:"kind"`
 	}
 	json.Unmarshal(raw, &probe)
-	if probe.Kind == "beside-stalled-reader" {
+	if probe.Kind == "beside-stalled-reader" || probe.Kind == "pipeline-ladder" {
 		return c11SchedReplay(raw)
 	}
 	var cs c11Case
@@ -299,7 +300,7 @@ func init() {
 	fw.Register(&fw.Prop{
 		ID:          "C11",
 		Level:       "fault_enumeration",
-		Rule:        "pipelines of 1 valid request (every valid shape of the catalogue, <=4 per command in quick, plus requests with optional tails such as 'LPOP k 5', 'PING m', 'SET k v EX 5', pair lists, 2- and 3-digit lengths) and of 2 requests (representative x valid; thorough: representative triples); EVERY byte offset 0..len as the point where the stream ends x {half-close: Read->EOF, writes succeed; full close: Read->ECONNRESET, writes fail afterwards; full close where the transport's Close reports an error although it closes (a TLS connection whose peer is gone); full close noticed early: reply write #1 or #2 and all later ones fail while the bytes sent before the close are still readable} x {whole, 1-byte delivery}. Size ladder: PING, SET k <L bytes>, ECHO x for L around every power of two up to 65537 and 10^2..10^4, cut within 6 bytes of every structural position and every 4096 bytes inside the value. Oracle: recorded handler calls = the calls of exactly the completely delivered requests (taken from running each alone), their replies once and in order (half-close), then loop returned, transport closed, registry empty. Non-trivial = distinct (pipeline, cut, close mode). Scheduled part: the same (complete requests + partial one, half close and full close) next to a client that never reads its replies, every schedule within deviation bound 2.",
+		Rule:        "pipelines of 1 valid request (every valid shape of the catalogue, <=4 per command in quick, plus requests with optional tails such as 'LPOP k 5', 'PING m', 'SET k v EX 5', pair lists, 2- and 3-digit lengths) and of 2 requests (representative x valid; thorough: representative triples); EVERY byte offset 0..len as the point where the stream ends x {half-close: Read->EOF, writes succeed; full close: Read->ECONNRESET, writes fail afterwards; full close where the transport's Close reports an error although it closes (a TLS connection whose peer is gone); full close noticed early: reply write #1 or #2 and all later ones fail while the bytes sent before the close are still readable} x {whole, 1-byte delivery}. Size ladder: PING, SET k <L bytes>, ECHO x for L around every power of two up to 65537 and 10^2..10^4, cut within 6 bytes of every structural position and every 4096 bytes inside the value. Oracle: recorded handler calls = the calls of exactly the completely delivered requests (taken from running each alone), their replies once and in order (half-close), then loop returned, transport closed, registry empty. Non-trivial = distinct (pipeline, cut, close mode). Scheduled part: the same (complete requests + partial one, half close and full close) next to a client that never reads its replies, every schedule within deviation bound 2.; pipeline ladder under the scheduler: one client writes 1, 3, 6, 12 or 20 complete SETs and a partial one in ONE write and ends its stream at once - half close (then reads everything) or full close without having read one reply, so that every reply write meets a closed peer: the complete SETs reach the handler once each, in order, the partial one never, the replies arrive after a half close, the server closes the socket (every schedule within deviation bound 2 up to 3 requests, bound 1 above)",
 		Assumptions: []string{"an error reply written for the partial request itself is tolerated; any handler call or non-error reply for it is a violation"},
 		Run:         c11Run,
 		Replay:      c11Replay,
